@@ -678,7 +678,7 @@ func (ex *Exec) lenOf(st *State, x *Val) *Val {
 	if _, ok := x.T.Underlying().(*types.Chan); ok {
 		return &Val{T: tInt, Term: ex.D.app("chan.len", SInt, x.Term)}
 	}
-	ex.specFail("len of %s", x.T)
+	ex.specFail("len of %s (sort %s, term %s)", x.T, x.Term.S, x.Term)
 	return nil
 }
 
